@@ -7,7 +7,11 @@ import gen as G
 from implutil import BACKENDS, SHORT, make_context, exc_name
 
 RULE = ('case = (training table, lattice spec in {default(Lindig), CbO, Sofia L_max=k, sub-lattice = subset of the CbO concepts '
-        'keeping top and bottom, monotone}, test table over the same attributes (rows need not occur in training), backend of '
+        'keeping top and bottom, monotone, or hist = one of these followed by a HISTORY through the public api: constructor '
+        'given the concepts reversed/shuffled, .T (then the traced context is over the training objects), write_json->read_json, '
+        'reading every *_dict, a tracing of this or another context, emptying the dictionaries a tracing returned, '
+        'remove / del / add / remove+add (fill_up_cache on and off) - the LAST tracing is judged against the lattice content '
+        'read back from the object afterwards}, test table over the same attributes (rows need not occur in training), backend of '
         'the test context, key mode, object names of both contexts: fresh names, or - stream same-names - the traced context '
         'carrying exactly the training object names (default names on both sides / explicit / spelled-out defaults) or a '
         'permutation of them, with the same row count but different rows); or the many-valued twin (interval columns, IntervalPS / IntervalNumpyPS). The lattice is '
@@ -16,12 +20,16 @@ RULE = ('case = (training table, lattice spec in {default(Lindig), CbO, Sofia L_
         'concepts, mixed test table; distinct = distinct (train, lattice spec, test, backend, key mode)')
 EXHAUSTIVE = {
     'quick': 'all training tables n,m<=3 (682) x {default, CbO, every distinct Sofia-pruned lattice L_max=1..#concepts, all '
-             'sub-lattices keeping top+bottom when #concepts<=4 else 4 seeded ones, monotone} x test tables: m<=2: all tables '
-             'with <=3 rows; m=3: all tables with <=2 rows + all 3-row tables with strictly increasing rows + the table of all '
+             'sub-lattices keeping top+bottom when #concepts<=5 else every drop-one-concept sub-lattice + 2 seeded ones, monotone} x test tables: m<=2: all tables '
+             'with <=3 rows; m=3: all 1-row tables, all unordered pairs of rows (orientation alternating; CbO and Sofia lattices '
+             'only), all 3-row tables with pairwise distinct rows up to order + the table of all '
              '8 rows; same-names: every training table x {default, CbO, first Sofia, 2 sub-lattices} x complement, reversed rows and '
              'all (n*m<=6) / 14 seeded same-shape tables, 5 name variants rotating (both "default/default" and "same explicit" '
              'for the first two); key mode and test backend rotate over the enumeration (both key modes for every lattice); MV: all 1-column '
-             'interval training contexts with <=3 rows over a 3-point grid x sub-lattices x all test contexts with <=2 rows',
+             'interval training contexts with <=3 rows over a 3-point grid x sub-lattices x all test contexts with <=2 rows '
+             '(unordered pairs); history: every training table n,m<=3 x 19 history patterns (+6 ending in .T) x 3 test tables; '
+             'history-mv: 8 patterns x 2 tests; extreme: 12 seeded tables with 65/70/129 attributes or 13-15 objects, 14+ traced '
+             'objects; random MV value pools: small integers, integers above 2**24, hundredths (k/100)',
     'thorough': 'all training tables n,m<=3 x all lattice variants (ALL sub-lattices keeping top+bottom, up to 8 concepts) x ALL '
                 'test tables with <=3 rows + the table of all rows (both key modes for <=2 rows, rotating for 3 rows; backend '
                 'rotates); training tables with n*m<=12 (n,m<=4) x lattice variants x all test tables with <=2 rows (m<=3) / 12 '
@@ -30,7 +38,9 @@ EXPLANATION = ('the two returned dictionaries are pinned uniquely by the propert
                'with the Lean-side specification (Spec.describing / Spec.minimalDescribing evaluated by the driver), and with the '
                'code-shaped model; theorems Fca.C17.* prove model = spec for every list of genuine concepts with its true cover '
                'relation (hypotheses are re-checked by the driver on every case: "hyp")')
-ASSUMPTIONS = ['object names of the traced context pairwise distinct (dictionary keys); they may coincide with the training '
+ASSUMPTIONS = ['a history step that itself raises is skipped and recorded (hist-note:*): mutating the lattice is C09-C12\'s '
+               'business, here only the tracing that follows is judged',
+               'object names of the traced context pairwise distinct (dictionary keys); they may coincide with the training '
                'object names - names are not identity, the rows of the traced context decide',
                'the lattice object was produced by the library from one training context (its concepts/children_dict are read '
                'from the real object and checked against IsLatticeOf by the driver on every case)',
@@ -39,6 +49,7 @@ ASSUMPTIONS = ['object names of the traced context pairwise distinct (dictionary
 TRUSTED = ['extraction of the lattice data (extent_i, intent_i, children_dict, support, top, is_monotone) from the real object',
            'MV: upward inheritance of satisfaction is a hypothesis of trace_any_context_partial, checked per case by the driver']
 CHUNK = 1000
+REQUESTS_NEED_IMPL = True      # history cases: the lattice data is read from the object the implementation side built
 
 # distinct object names, deliberately not in index order (o3, o2, o1, o0, o7, ...)
 NAMES = ['o%d' % (i ^ 3) for i in range(128)]
@@ -73,24 +84,27 @@ def _lattice(rows_key, spec, tnames=None):
     raise ValueError(spec)
 
 
-def _mv_ctx(data, ps, names=None):
+def _mv_ctx(data, ps, names=None, div=1):
+    """interval cells are integers k (or [k1, k2]); the library is given k/div (div=100: values like 0.1, 19.99 that are
+    not representable exactly; order and equality of k/div are those of k, so the integer model stays exact)"""
     from fcapy.mvcontext import MVContext, PS
     cls = {'py': PS.IntervalPS, 'np': PS.IntervalNumpyPS}[ps]
     m = len(data[0])
-    cells = [[tuple(v) if isinstance(v, (list, tuple)) else v for v in row] for row in data]
+    sc = (lambda x: x) if div == 1 else (lambda x: x / div)
+    cells = [[tuple(sc(x) for x in v) if isinstance(v, (list, tuple)) else sc(v) for v in row] for row in data]
     return MVContext(data=cells, pattern_types={str(j): cls for j in range(m)}, object_names=names)
 
 
 @functools.lru_cache(maxsize=4096)
-def _mv_lattice(data_key, ps, spec, tnames=None):
+def _mv_lattice(data_key, ps, spec, tnames=None, div=1):
     from fcapy.lattice import ConceptLattice
-    K = _mv_ctx([list(r) for r in data_key], ps, None if tnames is None else list(tnames))
+    K = _mv_ctx([list(r) for r in data_key], ps, None if tnames is None else list(tnames), div)
     if spec[0] == 'CbO':
         return ConceptLattice.from_context(K)
     if spec[0] == 'Sofia':
         return ConceptLattice.from_context(K, algo='Sofia', L_max=spec[1])
     if spec[0] == 'sub':
-        full = _mv_lattice(data_key, ps, ('CbO',), tnames)
+        full = _mv_lattice(data_key, ps, ('CbO',), tnames, div)
         keep = [c for i, c in enumerate(full) if (spec[1] >> i) & 1]
         return ConceptLattice(keep)
     raise ValueError(spec)
@@ -100,12 +114,49 @@ def _key(rows):
     return tuple(tuple(tuple(v) if isinstance(v, list) else v for v in r) for r in rows)
 
 
-def _get_lattice(c):
+def _base_spec(c):
+    return tuple(c['lat'][1]) if c['lat'][0] == 'hist' else tuple(c['lat'])
+
+
+def _get_lattice(c, spec=None):
+    """the (cached, never mutated) lattice of the case; for a history case its BASE lattice"""
+    tn = c.get('tnames')
+    tn = None if tn is None else tuple(tn)
+    spec = _base_spec(c) if spec is None else spec
+    if c['kind'] == 'mv':
+        return _mv_lattice(_key(c['train']), c['ps'], spec, tn, c.get('div', 1))
+    return _lattice(_key(c['train']), spec, tn)
+
+
+@functools.lru_cache(maxsize=4096)
+def _pristine_lattice(rows_key, spec, tnames=None):
+    """an object of its own that is NEVER traced or mutated, only deep-copied: the starting point of every history case
+    (the objects of `_lattice` are traced again and again by the plain cases, so whatever a tracing memoises on the
+    lattice would leak into a history and make the case irreproducible in isolation)"""
+    return _lattice.__wrapped__(rows_key, spec, tnames)
+
+
+@functools.lru_cache(maxsize=4096)
+def _pristine_mv_lattice(data_key, ps, spec, tnames=None, div=1):
+    return _mv_lattice.__wrapped__(data_key, ps, spec, tnames, div)
+
+
+def _get_pristine(c):
     tn = c.get('tnames')
     tn = None if tn is None else tuple(tn)
     if c['kind'] == 'mv':
-        return _mv_lattice(_key(c['train']), c['ps'], tuple(c['lat']), tn)
-    return _lattice(_key(c['train']), tuple(c['lat']), tn)
+        return _pristine_mv_lattice(_key(c['train']), c['ps'], _base_spec(c), tn, c.get('div', 1))
+    return _pristine_lattice(_key(c['train']), _base_spec(c), tn)
+
+
+def _transposed(c):
+    return c['lat'][0] == 'hist' and sum(1 for o in c['lat'][2] if o[0] == 'T') % 2 == 1
+
+
+def _train_rows(c):
+    """the table the final lattice is a lattice OF (the transposed training table after `.T`)"""
+    rows = c['train']
+    return [list(col) for col in zip(*rows)] if _transposed(c) else rows
 
 
 def _test_names(c):
@@ -113,10 +164,14 @@ def _test_names(c):
     return [str(i) for i in range(len(c['test']))] if c.get('names') is None else list(c['names'])
 
 
-def _lat_data(L):
+def _lat_data(L, kind='formal', div=1):
     n = len(L)
     chd = L.children_dict
-    return dict(exts=[[int(g) for g in L[i].extent_i] for i in range(n)],
+    if kind == 'mv':
+        ints = [[[int(p), None if v is None else _interval(v, div)] for p, v in L[i].intent_i.items()] for i in range(n)]
+    else:
+        ints = [[int(a) for a in L[i].intent_i] for i in range(n)]
+    return dict(exts=[[int(g) for g in L[i].extent_i] for i in range(n)], ints=ints,
                 children=[[int(j) for j in chd[i]] for i in range(n)],       # frozenset iteration order
                 supports=[int(L[i].support) for i in range(n)], top=int(L.top), mono=bool(L.is_monotone))
 
@@ -161,7 +216,14 @@ def _lattice_specs(rows, rng, sub_all_upto, sub_limit):
             specs.append(('Sofia', lm))
     if k >= 3:
         lim = None if k <= sub_all_upto else sub_limit
-        for mask in _sub_masks(k, full.top, full.bottom, rng, lim):
+        masks = _sub_masks(k, full.top, full.bottom, rng, lim)
+        if lim is not None and k <= 10:
+            # never leave to chance: every sub-lattice obtained by dropping ONE concept (these are the smallest non-graded
+            # lattices: a concept reachable from the top by a short and by a long chain)
+            allbits = (1 << k) - 1
+            single = [allbits & ~(1 << i) for i in range(k) if i not in (full.top, full.bottom)]
+            masks = single + [mk for mk in masks if mk not in single][:max(0, lim - 2)]
+        for mask in masks:
             specs.append(('sub', mask))
     specs.append(('mono',))
     return specs
@@ -175,11 +237,12 @@ def _tests_quick(m):
             for t in itertools.product(rows_all, repeat=n):
                 yield [list(r) for r in t]
         return
-    for n in (1, 2):
-        for t in itertools.product(rows_all, repeat=n):
-            yield [list(r) for r in t]
-    for t in itertools.combinations(rows_all, 3):
-        yield [list(r) for r in t]
+    for r in rows_all:
+        yield [list(r)]
+    for k, (r, q) in enumerate(itertools.combinations_with_replacement(rows_all, 2)):   # unordered pairs, orientation alternating
+        yield [list(q), list(r)] if k & 1 else [list(r), list(q)]
+    for k, t in enumerate(itertools.combinations(rows_all, 3)):
+        yield [list(r) for r in (t[::-1] if k & 1 else t)]
     yield [list(r) for r in rows_all]
 
 
@@ -191,11 +254,13 @@ def _tests_all(m):
     yield [list(r) for r in rows_all]
 
 
-def _formal_cases(rows, specs, tests, stream, both_upto, counter):
+def _formal_cases(rows, specs, tests, stream, both_upto, counter, lean_default=False):
     for spec in specs:
         for t_i, test in enumerate(tests):
             if spec[0] == 'mono' and t_i >= 3:      # the refusal does not look at the traced context
                 break
+            if lean_default and spec[0] in ('default', 'sub') and len(test) == 2 and t_i >= both_upto:
+                continue                            # quick tier: Lindig and sub-lattices skip the two-row tests (CbO, Sofia have them)
             modes = (False, True) if t_i < both_upto else ((counter[0] & 1) == 1,)
             for useidx in modes:
                 counter[0] += 1
@@ -213,10 +278,10 @@ def _mv_tables(ncols, nmax, cells):
             yield [list(t[i * ncols:(i + 1) * ncols]) for i in range(n)]
 
 
-def _mv_specs(data, ps, rng, limit):
+def _mv_specs(data, ps, rng, limit, div=1):
     specs = [('CbO',)]
     try:
-        full = _mv_lattice(_key(data), ps, ('CbO',))
+        full = _mv_lattice(_key(data), ps, ('CbO',), None, div)
     except Exception:
         return []
     k = len(full)
@@ -226,12 +291,15 @@ def _mv_specs(data, ps, rng, limit):
     return specs
 
 
-def _mv_cases(train, specs, tests, ps, stream, counter):
+def _mv_cases(train, specs, tests, ps, stream, counter, div=1):
     for spec in specs:
         for test in tests:
             counter[0] += 1
-            yield dict(stream=stream, kind='mv', ps=ps, train=train, lat=list(spec), test=test,
-                       useidx=bool(counter[0] & 1), names=NAMES[:len(test)])
+            c = dict(stream=stream, kind='mv', ps=ps, train=train, lat=list(spec), test=test,
+                     useidx=bool(counter[0] & 1), names=NAMES[:len(test)])
+            if div != 1:
+                c['div'] = div
+            yield c
 
 
 def _name_variant(v, n):
@@ -285,7 +353,7 @@ def _same_name_cases(rows, specs, tests, stream, counter):
                            be=BACKENDS[counter[0] % 3], useidx=bool((counter[0] // 3) & 1))
 
 
-def _same_name_mv_cases(train, specs, tests, ps, stream, counter):
+def _same_name_mv_cases(train, specs, tests, ps, stream, counter, div=1):
     n = len(train)
     for spec in specs:
         for t_i, test in enumerate(tests):
@@ -293,8 +361,11 @@ def _same_name_mv_cases(train, specs, tests, ps, stream, counter):
             for v in variants:
                 counter[0] += 1
                 tn, nm = _name_variant(v, n)
-                yield dict(stream=stream, kind='mv', ps=ps, train=train, lat=list(spec), test=test, tnames=tn, names=nm,
-                           useidx=bool(counter[0] & 1))
+                c = dict(stream=stream, kind='mv', ps=ps, train=train, lat=list(spec), test=test, tnames=tn, names=nm,
+                         useidx=bool(counter[0] & 1))
+                if div != 1:
+                    c['div'] = div
+                yield c
 
 
 def _pick_specs(specs, k_sub):
@@ -310,6 +381,108 @@ def _pick_specs(specs, k_sub):
             nsub += 1
             out.append(sp)
     return out
+
+
+def _hist_patterns(k):
+    """(base lattice, history) pairs; `k` rotates the concept a step picks.  Base 'sub*' / 'Sofia*' = a sub-lattice / a
+    Sofia-pruned lattice of the table when it has one."""
+    return [
+        ('CbO', [['perm', -1]]),                                            # constructor given the concepts reversed
+        ('CbO', [['perm', k]]),                                             # ... shuffled
+        ('sub*', [['perm', k + 3]]),
+        ('CbO', [['json']]),                                                # write_json -> read_json
+        ('default', [['remove', k]]),                                       # mutated before its first tracing
+        ('sub*', [['add', k, 1]]),
+        ('sub*', [['add', k + 1, 0]]),
+        ('CbO', [['read'], ['del', k + 1]]),
+        ('default', [['trace', 'test', 1], ['remove', k]]),                 # trace -> mutate -> trace
+        ('CbO', [['trace', 'alt', 0], ['del', k]]),
+        ('default', [['trace', 'test', 0], ['readd', k, 1]]),               # net-zero size
+        ('CbO', [['trace', 'alt', 1], ['readd', k + 1, 0]]),
+        ('sub*', [['trace', 'test', 1], ['add', k, 1]]),
+        ('sub*', [['read'], ['trace', 'alt', 0], ['add', k + 1, 0]]),
+        ('Sofia*', [['trace', 'test', 1], ['remove', k]]),
+        ('default', [['trace', 'test', 0], ['mutret']]),                    # caller empties the returned dictionaries
+        ('CbO', [['perm', k + 7], ['trace', 'alt', 0], ['readd', k, 1]]),
+        ('CbO', [['json'], ['trace', 'test', 0], ['remove', k]]),
+        ('default', [['trace', 'test', 1], ['remove', k], ['add', 0, 1], ['trace', 'alt', 0], ['del', k + 1]]),
+    ]
+
+
+def _hist_patterns_T(k):
+    """histories that end in the transposed orientation: the traced context is over the training OBJECTS"""
+    return [
+        ('default', [['T']]),
+        ('CbO', [['T']]),
+        ('sub*', [['T']]),
+        ('default', [['T'], ['trace', 'test', 1], ['remove', k]]),
+        ('CbO', [['T'], ['readd', k, 1]]),
+        ('CbO', [['T'], ['perm', k]]),
+    ]
+
+
+def _resolve_base(base, specs, k):
+    if base == 'sub*':
+        subs = [sp for sp in specs if sp[0] == 'sub']
+        return subs[k % len(subs)] if subs else None
+    if base == 'Sofia*':
+        sof = [sp for sp in specs if sp[0] == 'Sofia']
+        return sof[k % len(sof)] if sof else None
+    return (base,)
+
+
+def _hist_cases(rows, specs, tests, tests_T, stream, counter, patterns=None, patterns_T=None):
+    k = counter[0]
+    for transposed, pats, tt in ((False, patterns or _hist_patterns(k), tests), (True, patterns_T or _hist_patterns_T(k), tests_T)):
+        for base, ops in pats:
+            sp = _resolve_base(base, specs, k)
+            if sp is None:
+                continue
+            for test in tt:
+                counter[0] += 1
+                yield dict(stream=stream, kind='formal', train=rows, lat=['hist', list(sp), ops], test=test,
+                           be=BACKENDS[counter[0] % 3], useidx=bool((counter[0] // 3) & 1), names=NAMES[:len(test)])
+
+
+def _hist_mv_cases(train, specs, tests, ps, stream, counter, div=1):
+    k = counter[0]
+    pats = [('CbO', [['perm', -1]]), ('CbO', [['perm', k]]), ('CbO', [['trace', 'test', 1], ['remove', k]]),
+            ('CbO', [['trace', 'alt', 0], ['readd', k, 1]]), ('sub*', [['trace', 'test', 0], ['add', k, 1]]),
+            ('sub*', [['add', k + 1, 0]]), ('CbO', [['read'], ['del', k]]), ('CbO', [['trace', 'test', 0], ['mutret']])]
+    for base, ops in pats:
+        sp = _resolve_base(base, specs, k)
+        if sp is None:
+            continue
+        for test in tests:
+            counter[0] += 1
+            c = dict(stream=stream, kind='mv', ps=ps, train=train, lat=['hist', list(sp), ops], test=test,
+                     useidx=bool(counter[0] & 1), names=NAMES[:len(test)])
+            if div != 1:
+                c['div'] = div
+            yield c
+
+
+def _extreme_cases(rng, count, counter):
+    """shape extremes: > 64 attributes (bit packing), >= 13 objects on either side (two-digit indexes and names)"""
+    for i in range(count):
+        if i & 1:
+            m, n = rng.choice((65, 70, 129)), rng.randint(2, 4)
+            rows = [[int(rng.random() < 0.7) for _ in range(m)] for _ in range(n)]
+        else:
+            m, n = rng.randint(3, 4), rng.randint(13, 15)
+            rows = [[int(rng.random() < 0.5) for _ in range(m)] for _ in range(n)]
+        test = [list(r) for r in rows] + [[1] * m, [0] * m]
+        while len(test) < 14:
+            r = list(rng.choice(rows))
+            for _ in range(rng.randint(0, 2)):
+                r[rng.randrange(m)] ^= 1
+            test.append(r)
+        rng.shuffle(test)
+        for lat in (['CbO'], ['default'], ['hist', ['CbO'], [['perm', i]]],
+                    ['hist', ['default'], [['trace', 'test', 1], ['remove', i]]]):
+            counter[0] += 1
+            yield dict(stream='extreme', kind='formal', train=rows, lat=lat, test=test, be=BACKENDS[counter[0] % 3],
+                       useidx=bool(counter[0] & 1), names=NAMES[:len(test)])
 
 
 def _corpus():
@@ -328,15 +501,26 @@ def gen(tier, seed, boost=False):
     rng = random.Random(seed * 1000003 + 1717)
     counter = [0]
     yield from _corpus()
-    thorough = tier == 'thorough' or boost
+    # a boosted quick run (drifted source / failed proof obligation) widens the quick scope by a bounded amount (every
+    # sub-lattice, more histories, 3x random); it does NOT switch to the thorough scope
+    thorough = tier == 'thorough'
+    wide = thorough or boost
     # ---- exhaustive small scope: formal contexts
     tests_by_m = {}
     for rows in G.tables_upto(3, 3):
         m = len(rows[0])
         if m not in tests_by_m:
             tests_by_m[m] = list(_tests_all(m) if thorough else _tests_quick(m))
-        specs = _lattice_specs(rows, rng, 8 if thorough else 4, 4)
-        yield from _formal_cases(rows, specs, tests_by_m[m], 'exhaustive', (2 ** m + 4 ** m) if thorough else 4, counter)
+        specs = _lattice_specs(rows, rng, 8 if wide else 5, 4)
+        yield from _formal_cases(rows, specs, tests_by_m[m], 'exhaustive', (2 ** m + 4 ** m) if thorough else 4, counter,
+                                 lean_default=not thorough)
+        # lattices with a history (unsorted constructor input, .T, read_json, add/remove/del between two tracings)
+        n = len(rows)
+        tm, tn = tests_by_m[m], tests_by_m.setdefault(n, list(_tests_all(n) if thorough else _tests_quick(n)))
+        nh = 6 if thorough else 4 if boost else 2
+        ht = [tm[-1]] + [tm[(counter[0] + 7 * j) % len(tm)] for j in range(nh)]
+        htT = [tn[-1], [list(col) for col in zip(*rows)]] + [tn[(counter[0] + 5 * j) % len(tn)] for j in range(nh - 1)]
+        yield from _hist_cases(rows, specs, ht, htT, 'history', counter)
         # the traced context carries the object names of the training context (same row count), other rows
         yield from _same_name_cases(rows, specs if thorough else _pick_specs(specs, 2),
                                     _same_shape_tests(rows, rng, 40 if thorough else 14), 'same-names', counter)
@@ -352,6 +536,10 @@ def gen(tier, seed, boost=False):
             yield from _formal_cases(rows, specs, tests, 'exhaustive-large', 4, counter)
     # ---- exhaustive small scope: many-valued interval contexts
     mv_tests1 = list(_mv_tables(1, 2, MV_CELLS))
+    if not thorough:                                # quick: unordered pairs of rows, orientation alternating
+        mv_tests1 = [t for t in mv_tests1 if len(t) == 1] + \
+            [[[q], [r]] if k & 1 else [[r], [q]]
+             for k, (r, q) in enumerate(itertools.combinations_with_replacement(MV_CELLS, 2))]
     for train in _mv_tables(1, 3, MV_CELLS):
         for ps in ('py', 'np'):
             specs = _mv_specs(train, ps, rng, None if thorough else 4)
@@ -360,6 +548,9 @@ def gen(tier, seed, boost=False):
             if len(same) > (40 if thorough else 8):
                 same = rng.sample(same, 40 if thorough else 8)
             yield from _same_name_mv_cases(train, specs[:3], same, ps, 'same-names-mv', counter)
+            if len(train) >= 2:
+                yield from _hist_mv_cases(train, specs, [mv_tests1[counter[0] % len(mv_tests1)], train + [train[0]]], ps,
+                                          'history-mv', counter)
     if thorough:
         cells2 = [0, 2, [0, 1], [1, 2]]
         mv_tests2 = list(_mv_tables(2, 2, cells2))
@@ -367,6 +558,7 @@ def gen(tier, seed, boost=False):
             for ps in ('py', 'np'):
                 specs = _mv_specs(train, ps, rng, 4)
                 yield from _mv_cases(train, specs, mv_tests2, ps, 'exhaustive-mv2', counter)
+    yield from _extreme_cases(rng, 60 if thorough else 24 if boost else 12, counter)
     # ---- seeded random larger cases
     nrand = 150 if tier == 'quick' else 2500
     if boost:
@@ -384,17 +576,27 @@ def gen(tier, seed, boost=False):
         tests.append([list(r) for r in rows])       # the training context itself
         yield from _formal_cases(rows, specs, tests, 'random', 1, counter)
         yield from _same_name_cases(rows, _pick_specs(specs, 1), _same_shape_tests(rows, rng, 4), 'random-same-names', counter)
+        k = rng.randrange(1000)
+        pats = rng.sample(_hist_patterns(k), 6)
+        tT = [[list(col) for col in zip(*rows)], G.random_table(rng, 5, len(rows), mmin=len(rows))]
+        yield from _hist_cases(rows, specs, tests[:1] + tests[-1:], tT, 'random-history', counter, pats,
+                               rng.sample(_hist_patterns_T(k), 2))
         if _ % 3 == 0:
             ncols = rng.randint(1, 3)
-            cell = lambda: (lambda a, b: a if a == b else [min(a, b), max(a, b)])(rng.randint(0, 4), rng.randint(0, 4))
+            # value pools: small integers / integers beyond float32's 24-bit mantissa / hundredths (0.01 .. 19.99, given to
+            # the library as k/100)
+            off, div = [(0, 1), (2 ** 24, 1), (0, 100)][(_ // 3) % 3]
+            hi = 1999 if div == 100 else 4
+            cell = lambda: (lambda a, b: a if a == b else [min(a, b), max(a, b)])(off + rng.randint(0, hi), off + rng.randint(0, hi))
             train = [[cell() for _j in range(ncols)] for _i in range(rng.randint(1, 5))]
             mvt = [[[cell() for _j in range(ncols)] for _i in range(rng.randint(1, 5))] for _k in range(3)] + [train]
             for ps in ('py', 'np'):
-                sp = _mv_specs(train, ps, rng, 3)
-                yield from _mv_cases(train, sp, mvt, ps, 'random-mv', counter)
+                sp = _mv_specs(train, ps, rng, 3, div)
+                yield from _mv_cases(train, sp, mvt, ps, 'random-mv', counter, div)
+                yield from _hist_mv_cases(train, sp, mvt[:1] + mvt[-1:], ps, 'random-history-mv', counter, div)
                 same = [[[cell() for _j in range(ncols)] for _i in range(len(train))] for _k in range(3)]
                 yield from _same_name_mv_cases(train, sp[:2], [t for t in same if t != train], ps,
-                                               'random-same-names-mv', counter)
+                                               'random-same-names-mv', counter, div)
 
 
 # ----------------------------------------------------------------------------------------------- implementation side
@@ -406,41 +608,157 @@ def _canon_dict(d):
     return out
 
 
-def impl(c):
-    L = _get_lattice(c)
-    if c['kind'] == 'mv':
-        ctx = _mv_ctx(c['test'], c['ps'], None if c.get('names') is None else list(c['names']))
-    else:
-        ctx = make_context(c['test'], c['be'], c.get('names'))
+class _Timeout(Exception):
+    pass
+
+
+def _guarded(f, seconds=20):
+    """run f() under a CPU-time guard (a traversal that never ends is a failure of the case, not of the run)"""
+    import signal
+
+    def onalarm(signum, frame):
+        raise _Timeout()
     try:
-        r = L.trace_context(ctx, use_object_indices=c['useidx'])
+        old = signal.signal(signal.SIGPROF, onalarm)
+    except ValueError:                              # not in the main thread: no guard
+        return f()
+    signal.setitimer(signal.ITIMER_PROF, seconds)
+    try:
+        return f()
+    finally:
+        signal.setitimer(signal.ITIMER_PROF, 0)
+        signal.signal(signal.SIGPROF, old)
+
+
+def _test_ctx(c, rows=None, names=False):
+    rows = c['test'] if rows is None else rows
+    nm = c.get('names') if names is False else names
+    if c['kind'] == 'mv':
+        return _mv_ctx(rows, c['ps'], None if nm is None else list(nm), c.get('div', 1))
+    return make_context(rows, c['be'], nm)
+
+
+def _alt_rows(c):
+    """another context over the same attributes (used for a tracing BEFORE the lattice is changed)"""
+    if c['kind'] == 'mv':
+        return [list(r) for r in c['test'][::-1]] + [list(c['test'][0])]
+    return [[1 - v for v in r] for r in c['test']] + [list(c['test'][0])]
+
+
+def _apply_history(c, L, ctx):
+    """apply the history of a `hist` case to the private copy `L` through the PUBLIC api; returns (lattice, notes)"""
+    from fcapy.lattice import ConceptLattice
+    notes, removed, last = [], [], None
+    transposed = rebuilt = False
+    for op in c['lat'][2]:
+        o = op[0]
+        try:
+            if o == 'perm':                         # the same concepts handed to the constructor in another order
+                cs = list(L)
+                if op[1] < 0:
+                    cs = cs[::-1]
+                else:
+                    random.Random(op[1]).shuffle(cs)
+                L = ConceptLattice(cs)
+            elif o == 'T':
+                L = L.T
+                transposed = not transposed
+            elif o == 'json':
+                if len(L) >= 3 and c['kind'] == 'formal' and not transposed:
+                    K = _train_ctx(_key(c['train']), None if c.get('tnames') is None else tuple(c['tnames']))
+                    L = ConceptLattice.read_json(json_data=L.write_json(list(K.object_names), list(K.attribute_names)))
+                    rebuilt = True
+                else:
+                    notes.append('json:skipped')
+            elif o == 'read':                       # warm every cache of the poset
+                _ = (L.children_dict, L.parents_dict, L.descendants_dict, L.ancestors_dict, L.top, L.bottom)
+            elif o == 'trace':
+                cx = ctx if op[1] == 'test' else _test_ctx(c, _alt_rows(c), None)
+                last = _guarded(lambda: L.trace_context(cx, use_object_indices=bool(op[2])))
+            elif o == 'mutret':                     # a hostile caller empties what the previous tracing returned
+                if last is not None:
+                    for d in last[:2]:
+                        for v in d.values():
+                            v.clear()
+                        d.clear()
+            elif o in ('remove', 'del', 'readd'):
+                cand = [i for i in range(len(L)) if i not in (L.top, L.bottom)]
+                if not cand:
+                    notes.append(o + ':skipped')
+                    continue
+                i = cand[op[1] % len(cand)]
+                el = L[i]
+                if o == 'del':
+                    del L[i]
+                else:
+                    L.remove(el)
+                removed.append(el)
+                if o == 'readd':
+                    L.add(el, fill_up_cache=bool(op[2]))
+            elif o == 'add':
+                pool = list(removed)
+                if not transposed and not rebuilt:
+                    pool += [x for x in _get_lattice(c, ('CbO',)) if x not in L and x not in pool]
+                pool = [x for x in pool if x not in L]
+                if not pool:
+                    notes.append('add:skipped')
+                    continue
+                L.add(pool[op[1] % len(pool)], fill_up_cache=bool(op[2]))
+            else:
+                notes.append('unknown-op:' + str(o))
+        except _Timeout:
+            notes.append(o + ':NonTermination')
+        except Exception as e:                      # a history step that raises is not this property's business
+            notes.append(o + ':' + exc_name(e))
+    return L, notes
+
+
+def impl(c):
+    import copy
+    ctx = _test_ctx(c)
+    out = {}
+    if c['lat'][0] == 'hist':
+        L, notes = _apply_history(c, copy.deepcopy(_get_pristine(c)), ctx)
+        out['notes'] = notes
+    else:
+        L = _get_lattice(c)
+    try:
+        r = _guarded(lambda: L.trace_context(ctx, use_object_indices=c['useidx']))
         if len(r) != 2:
-            return {'err': 'ResultArity%d' % len(r)}
-        return {'bottom': _canon_dict(r[0]), 'traced': _canon_dict(r[1])}
+            out['err'] = 'ResultArity%d' % len(r)
+        else:
+            out.update(bottom=_canon_dict(r[0]), traced=_canon_dict(r[1]))
+    except _Timeout:
+        out['err'] = 'NonTermination'
     except Exception as e:
-        return {'err': exc_name(e)}
+        out['err'] = exc_name(e)
+    if c['lat'][0] == 'hist':                       # the CURRENT content of the lattice, read after the judged call
+        try:
+            out['lat'] = _lat_data(L, c['kind'], c.get('div', 1))
+        except Exception as e:
+            out['lat_err'] = exc_name(e)
+    return out
 
 
-def _interval(v):
+def _interval(v, div=1):
     lo, hi = (v if isinstance(v, (list, tuple)) else (v, v))
+    lo, hi = (lo, hi) if div == 1 else (round(lo * div), round(hi * div))
     assert float(int(lo)) == float(lo) and float(int(hi)) == float(hi)
+    if div != 1:
+        assert int(lo) / div == (v[0] if isinstance(v, (list, tuple)) else v)
     return [int(lo), int(hi)]
 
 
-def requests(c):
-    L = _get_lattice(c)
-    d = _lat_data(L)
-    n = len(L)
+def requests(c, io=None):
+    d = (io or {}).get('lat')
+    d = dict(d) if d is not None else _lat_data(_get_lattice(c), c['kind'], c.get('div', 1))
     if c['kind'] == 'mv':
-        ints = []
-        for i in range(n):
-            ints.append([[int(p), None if v is None else _interval(v)] for p, v in L[i].intent_i.items()])
         ncols = len(c['test'][0])
         cols = [[_interval(row[j]) for row in c['test']] for j in range(ncols)]
-        d.update(op='C17.tracemv', ints=ints, cols=cols, n=len(c['test']), names=_test_names(c), useidx=c['useidx'])
+        d.update(op='C17.tracemv', cols=cols, n=len(c['test']), names=_test_names(c), useidx=c['useidx'])
         return [d]
-    d.update(op='C17.trace', be=SHORT[c['be']], trows=c['train'], tw=len(c['train'][0]),
-             ints=[[int(a) for a in L[i].intent_i] for i in range(n)],
+    tr = _train_rows(c)
+    d.update(op='C17.trace', be=SHORT[c['be']], trows=tr, tw=len(tr[0]),
              rows=c['test'], w=len(c['test'][0]), names=_test_names(c), useidx=c['useidx'])
     return [d]
 
@@ -452,6 +770,9 @@ def _split(out):
 def judge(c, io, rep):
     r = rep[0]
     model, spec = r['model'], r['spec']
+    if 'lat_err' in io:                             # the mutated lattice cannot be read back: nothing to judge against
+        return dict(ok=True)
+    io = {k: v for k, v in io.items() if k in ('bottom', 'traced', 'err')}
     if c['lat'][0] == 'mono':
         if io == {'err': 'NotImplementedError'}:
             if model != io:
@@ -459,7 +780,8 @@ def judge(c, io, rep):
             return dict(ok=True)
         return dict(ok=False, kind='property', detail=f'tracing a monotone lattice was not refused: {str(io)[:200]}')
     if 'err' in io:
-        return dict(ok=False, kind='property', detail=f'trace_context raised {io["err"]}')
+        return dict(ok=False, kind='property', detail=f'trace_context raised {io["err"]}'
+                    + (f' after the history {c["lat"][2]}' if c['lat'][0] == 'hist' else ''))
     bk, bv = _split(io['bottom'])
     tk, tv = _split(io['traced'])
     if tk != spec['keys'] or bk != spec['keys']:
@@ -493,12 +815,19 @@ def nontrivial(c):
 
 
 def key(c):
-    return [c['kind'], c.get('ps'), c['train'], c['lat'], c['test'], c.get('be'), c['useidx'], c.get('tnames'), c.get('names')]
+    return [c['kind'], c.get('ps'), c['train'], c['lat'], c['test'], c.get('be'), c['useidx'], c.get('tnames'), c.get('names'), c.get('div', 1)]
 
 
 def branch(c, io, rep):
     r = rep[0] if rep else {}
     out = [c['stream'], f"{c['kind']}:{c['lat'][0]}", 'idx' if c['useidx'] else 'names', 'err' if 'err' in io else 'ok']
+    if c['lat'][0] == 'hist':
+        out.append('hist:' + '>'.join(o[0] for o in c['lat'][2]))
+        out.extend('hist-note:' + x for x in io.get('notes', []))
+        if 'lat_err' in io:
+            out.append('hist:lattice-unreadable')
+    if c.get('div', 1) != 1:
+        out.append('mv:hundredths')
     if c['kind'] == 'formal':
         out.append('be:' + SHORT[c['be']])
     else:
@@ -570,7 +899,14 @@ def shrink(c):
                         d['train'] = [list(r) for r in train]
                         d['train'][i][j] = 0
                         yield d
-        if c['lat'][0] != 'CbO' and c['lat'][0] != 'mono':
+        if c['lat'][0] != 'CbO' and c['lat'][0] != 'mono' and not _transposed(c):
             d = dict(c)
             d['lat'] = ['CbO']
             yield d
+    if c['lat'][0] == 'hist':                       # shorter histories (the orientation must stay)
+        ops = c['lat'][2]
+        for i, o in enumerate(ops):
+            if o[0] != 'T':
+                d = dict(c)
+                d['lat'] = ['hist', c['lat'][1], ops[:i] + ops[i + 1:]]
+                yield d
